@@ -231,8 +231,10 @@ def run(chk):
                               "calls": a["calls"][:24], "cor": a["cor"]} for a in c["apps"]]})
     chk.assumptions = [
         "serial hierarchy: size_physical == size_virtual, no ghost transfer (rest_send/prol_recv paths of parallel runs are not explored)",
-        "mock smoothers / coarse solvers are linear maps that return filtered corrections and always report success; filters are "
-        "unit-filter-like projections with the same index set for defects and corrections",
+        "mock smoothers / coarse solvers are linear maps that return filtered corrections (S = filter_cor o S') and always report success; "
+        "filters are rank-one projection pairs v - <v,p>d (defects) / v - <v,d>p (corrections): mean-filter-like with generic p # d on "
+        "levels 0 and 4 (filter_def # filter_cor), unit-filter-like (p = d = unit vector) on levels 2 and 6, none on odd levels; defects are "
+        "filtered (first application) or arbitrary (second application)",
         "level data over Z_32003 is generic (hash-generated), not SPD: the exact part checks the algebraic identity of the map, positivity "
         "plays no role in it; configurations whose adaptive denominator is 0 mod p are skipped (counted)",
         "floating part: Q1 Poisson on the unit square, Jacobi(0.8) smoothing, mesh levels 2..%d; rate abstraction = max per-cycle residual "
